@@ -109,6 +109,7 @@ type checkCtx struct {
 	lines    []string // VIOLATION / KNOWN-FINDING lines
 	violations int
 	outDir   string
+	replays  int
 }
 
 func (c *checkCtx) violation(obligation, replayPath string, found bool) {
